@@ -398,9 +398,12 @@ def check_immutable(ctx, owners, snaps, kw):
             name, err, bad, G = errs.get(key, (None, None, None, None))
             if G is None or G.shape != snaps[ident].shape:
                 continue
-            d = float((G - snaps[ident]).abs().max())
+            if not bool((torch.isnan(G) == torch.isnan(snaps[ident])).all()):
+                d = float("nan")
+            else:
+                d = float((torch.nan_to_num(G) - torch.nan_to_num(snaps[ident])).abs().max())
             ctx.stat("cache_entries_checked_for_immutability")
-            if d != 0.0 and not d <= 1e-12 * (float(snaps[ident].abs().max()) + 1e-300):
+            if d != 0.0 and not d <= 1e-12 * (float(torch.nan_to_num(snaps[ident]).abs().max()) + 1e-300):
                 ctx.fail("cache_entry_immutable", "stale-cache", detail=f"cached {name} of a {type(owner).__name__} changed by {d:.2e} after it was written",
                          **dict(kw, tags=set(kw["tags"]) | {"entry:" + str(name)}))
             else:
